@@ -140,7 +140,7 @@ func coqCase(c *Case, res *Result) (term, key string, feats []string) {
 	for i, p := range probes {
 		ps[i] = z(p)
 	}
-	term = fmt.Sprintf("(%s, %s, [%s], %s, %s)", hx.CoqBool(c.NullEntries && len(res.ents) == 0), "["+strings.Join(es, "; ")+"]", strings.Join(ps, ";"), coqView(in, res.mem), coqView(in, res.db))
+	term = fmt.Sprintf("(%s, [%s], %s, %s)", "["+strings.Join(es, "; ")+"]", strings.Join(ps, ";"), coqView(in, res.mem), coqView(in, res.db))
 	key = term
 	feats = features(c, res)
 	return
